@@ -104,6 +104,15 @@ Theorem C20_tf_bank_metadata_reset_refuted : forall c, c_tf_keeps_bank_md c = fa
 Proof. exact tf_bank_md_reset_refuted. Qed.
 Print Assumptions C20_tf_bank_metadata_reset_refuted.
 
+(** Boundary of the oracle hypothesis "the pair key set is empty only if the whitelist is": without it the
+    second export differs (InitGenesis falls back to Params.Whitelist). Reachable only on a chain whose own
+    genesis had an empty whitelist, between a sudo whitelist edit and the end of that vote period. *)
+Theorem C20_oracle_pairs_boundary : forall c h t,
+  og_pairs (export_oracle pairs_boundary_witness) = [] /\
+  og_pairs (export_oracle (init_oracle c h t (export_oracle pairs_boundary_witness))) = [4; 5].
+Proof. exact oracle_pairs_boundary. Qed.
+Print Assumptions C20_oracle_pairs_boundary.
+
 (** The boolean predicates evaluated on implementation traces are sound for the Props above. *)
 Theorem C20_checker_sound : forall k, Pb k = true ->
   gen_equiv (k_h k) (k_e1 k) (k_e2 k) /\
